@@ -8,7 +8,7 @@ export GOFLAGS=-mod=mod GOPROXY=off GOSUMDB=off GOTOOLCHAIN=local
 WT=/tmp/wt/confirm-$ID
 git -C /repo worktree remove --force $WT >/dev/null 2>&1
 git -C /repo worktree add --detach $WT HEAD -q || exit 9
-DEMO=$(ls $SRC | grep -E '_test\.go$|\.sh$|main\.go$' | head -1)
+DEMO=$(ls $SRC | grep -E '_test\.go$' | head -1); [ -z "$DEMO" ] && DEMO=$(ls $SRC | grep -E '\.sh$|main\.go$' | head -1)
 if [ "$RUN" = "." ]; then RUN="^($(grep -oE '^func (Test[A-Za-z0-9_]+)' $SRC/$DEMO | awk '{print $2}' | paste -sd'|'))\$"; fi
 res() { echo "$1"; }
 cd $WT
